@@ -706,6 +706,7 @@ const SIG_PARTIAL_MERGE: &str = "c11:failed-load-partial-merge";
 const SIG_COLLISION_C13: &str = "c13:copy-of-colliding-container";
 const SIG_ALIEN_TYPE_C13: &str = "c13:copy-keeps-element-type-of-source-parent";
 const SIG_NONTRANSITIVE: &str = "c14:comparison-not-transitive-missing-definition-ref";
+const SIG_LONG_UNIQUE_NAME: &str = "c07:unique-name-suffix-exceeds-max-length";
 
 /// serialized text of (a duplicate of `top`'s model, sorted at the place of `top`) and of (a duplicate in which every element below
 /// that place was sorted on its own, deepest first, and then the place itself); third component: the subtree holds a
@@ -1982,6 +1983,28 @@ impl Checker {
                         out.push(Failure::new("C07", "move-invalid-in-destination", msg));
                     }
                     break;
+                }
+            }
+        }
+        if ok && self.on("C07") && (verb == "move" || verb == "copy") {
+            // C07: "all … values are permitted": the item name the operation wrote (a `_<n>` suffix for uniqueness) must still be a value the
+            // SHORT-NAME's own specification accepts - judged with the independent regular-expression matcher of this harness
+            let target: Option<Element> = if verb == "move" { subj.clone() } else { created_ids(req, &ans).first().and_then(|i| self.w.elems.get(*i).cloned()) };
+            if let Some(sn) = target.as_ref().and_then(|x| x.get_sub_element(ElementName::ShortName)) {
+                if let (Some(CharacterDataSpec::Pattern { regex, max_length, .. }), Some(v)) = (sn.element_type().chardata_spec(), sn.character_data().and_then(|c| c.string_value())) {
+                    *self.counts.entry("oracle.c07_item_name_checks").or_insert(0) += 1;
+                    let re = crate::rx::parse(regex);
+                    let too_long = max_length.is_some_and(|m| v.len() > m);
+                    let no_match = re.as_ref().is_some_and(|re| !crate::rx::matches(re, v.as_bytes()));
+                    // only names that the operation itself extended by `_<n>` from a valid name are judged
+                    let base_valid = v.rsplit_once('_').is_some_and(|(b, n)| {
+                        !n.is_empty() && n.chars().all(|c| c.is_ascii_digit()) && max_length.is_none_or(|m| b.len() <= m) && re.as_ref().is_none_or(|re| crate::rx::matches(re, b.as_bytes()))
+                    });
+                    if base_valid && too_long && !no_match {
+                        out.push(Failure::known("C07", SIG_LONG_UNIQUE_NAME, format!("`{req}`: the item name written for uniqueness has {} characters, the SHORT-NAME's specification allows {:?}", v.len(), max_length)));
+                    } else if base_valid && (too_long || no_match) {
+                        out.push(Failure::new("C07", "item-name-invalid", format!("`{req}`: the item name `{v}` written by the operation is not a value the SHORT-NAME's specification accepts")));
+                    }
                 }
             }
         }
